@@ -308,6 +308,24 @@ pub fn project(env: &Env) -> Map<String, Value> {
             }
         }
     }
+    // Solend reserves share the section (kind = "solend"; the 10^18-scaled components instead of the 2^60-scaled ones)
+    for (n, ri) in env.sreserves.iter() {
+        use solend_mocks::state::{SolendMinimalReserve, RESERVE_LEN};
+        if let Some(a) = env.world.get(&ri.reserve) {
+            if a.data.len() == RESERVE_LEN {
+                let r: SolendMinimalReserve = bytemuck::pod_read_unaligned(&a.data[1..RESERVE_LEN]);
+                let u = |b: [u8; 16]| big_u(u128::from_le_bytes(b));
+                let (av, sup, sl) = (r.liquidity_available_amount, r.collateral_mint_total_supply, r.last_update_slot);
+                reserves.insert(
+                    n.clone(),
+                    json!({"kind": "solend", "mint": ri.mint_name, "dec": r.liquidity_mint_decimals, "avail": big_u(av as u128), "supply": big_u(sup as u128),
+                           "borrowed_wads": u(r.liquidity_borrowed_amount_wads), "fees_wads": u(r.liquidity_accumulated_protocol_fees_wads),
+                           "slot": big_u(sl as u128), "vault": env.names.name(&ri.supply_vault),
+                           "owner_ok": a.owner == marginfi::constants::SOLEND_PROGRAM_ID && a.data[0] == 1}),
+                );
+            }
+        }
+    }
     m.insert("reserves".into(), Value::Object(reserves));
     // venue obligations (the banks' claims on the venue): any account of the venue program carrying the obligation discriminator
     let mut obls = Map::new();
@@ -321,6 +339,17 @@ pub fn project(env: &Env) -> Map<String, Value> {
                 env.names.name(k),
                 json!({"owner": env.names.name(&o.owner), "reserve": env.names.name(&o.deposits[0].deposit_reserve),
                        "amount": big_u(o.deposits[0].deposited_amount as u128), "other_deposits": big_u(others)}),
+            );
+        }
+    }
+    // Solend obligations (1300-byte layout of solend_mocks::state): owner, first deposit
+    for (k, a) in env.world.accts.iter() {
+        if a.owner == marginfi::constants::SOLEND_PROGRAM_ID && a.data.len() == solend_mocks::state::OBLIGATION_LEN && a.data[0] == 1 {
+            let pk = |o: usize| solana_program::pubkey::Pubkey::new_from_array(a.data[o..o + 32].try_into().unwrap());
+            let amt = if a.data[202] >= 1 { u64::from_le_bytes(a.data[236..244].try_into().unwrap()) } else { 0 };
+            obls.insert(
+                env.names.name(k),
+                json!({"owner": env.names.name(&pk(42)), "reserve": env.names.name(&pk(204)), "amount": big_u(amt as u128), "other_deposits": big_u(if a.data[202] > 1 { 1 } else { 0 })}),
             );
         }
     }
